@@ -6,8 +6,8 @@ import VrpModel.Cache
 flag and every cached attribute of the Python objects as a separate field and has one Lean function per Python
 method; each function performs the method's reads and writes of flags and caches in program order.  The
 cache-free SPECIFICATION (`ArcAbs` / `SeqAbs`, `specStep`, `specRun`) answers the same operations from the
-instance state alone.  Operations: the queries, the heuristic `make_feasible`, and (D19) the public MUTATORS of the
-formulation objects, every one of which calls the hook `_problem_changed()` before it touches the problem data.  `VrpProofs/Props/C14c.lean` proves that the objects refine the specification.
+instance state alone.  Operations: the queries (including route decoding `get_routes`, operation `decode`), the heuristic
+`make_feasible`, and (D19) the public MUTATORS of the formulation objects, every one of which calls the hook `_problem_changed()` before it touches the problem data.  `VrpProofs/Props/C14c.lean` proves that the objects refine the specification.
 
 ## `ArcBasedRoutingProblem` (`formulations/arc_based_rp.py`): Python statement → model clause
 
@@ -23,6 +23,12 @@ formulation objects, every one of which calls the hook `_problem_changed()` befo
 | `get_var_index`: `self.enumerate_variables()`                           | `getVarIndex`: `o.enumerateVariables`                     |
 |   `self.var_mapping.index(tuple)` / `ValueError → None`                 | `idxOf? o1.varMapping u` (search of the CACHED list)      |
 | `get_var_tuple_index`: `self.enumerate_variables()`; `var_mapping[k]`   | `getVarTupleIndex`: `o1.varMapping[k]?`                   |
+| `get_routes(x)`: `np.nonzero(solution)[0]`                              | `ArcObj.getRoutes`: `selectedIdx x` (positions with `x[k] ≠ 0`) |
+|   `[self.get_var_tuple_index(k) for k in …]`, nothing selected          | no lookup, no enumeration; `np.lexsort` raises on the empty key list: `(o, .error .type)` |
+|   … something selected: each lookup calls `enumerate_variables()`       | `o1 := o.enumerateVariables` (flag honoured), tuples `o1.varMapping[k]?` from the CACHE |
+|   an index `≥ len(var_mapping)`: lookup gives `None`, the array calls raise | `arcRoutesFrom`: `.error .type` (object stays enumerated) |
+|   `np.lexsort`, the `while` loop                                        | `arcDecodeTuples` (`sortA`, `arcDecodeGo` / `followArc`, `VrpModel/ArcBased.lean`) |
+|   `assert self.check_node_time_compat`, `assert all(visited[1:] == 1)`  | `arcAssertsTuples o1.inst.g` (current nodes / windows): `.error .assert` |
 | `build_objective`: `if self.objective_built: return`                    | `buildObjective`: `if o.objectiveBuilt then o`            |
 |   `self.enumerate_variables()`                                          | `o.enumerateVariables`                                    |
 |   `np.zeros(self.get_num_variables())`, `range(self.get_num_variables())` | `getNumVariables` (flag read again), cached count       |
@@ -78,8 +84,12 @@ Flags: `variables_enumerated`, `objective_built`, `lin_con_built`, `quad_con_bui
 
 | Python statement                                                        | model clause                                              |
 |-------------------------------------------------------------------------|-----------------------------------------------------------|
-| `enumerate_variables`: flag test; `var_mapping = []`, `var_mapping_inverse`, `fixed_values`, `num_variables`, flag `= True` | `SeqObj.enumerateVariables`: `varMapping := inst.vars`, `numVariables`, flag |
+| `enumerate_variables`: flag test; `var_mapping = []`, `var_mapping_inverse`, `fixed_values`, `num_variables`, flag `= True` | `SeqObj.enumerateVariables`: `varMapping := inst.vars`, `numVariables`, `fixedOnes := inst.fixedOnes` (the keys of `fixed_values` with value 1), flag |
 | `get_num_variables`, `get_var_index`, `get_var_tuple_index`             | as for the arc object (`var_mapping_inverse[v,s,n]` = position in the cached `varMapping`, `-1` ↦ `none`) |
+| `get_routes(x)`: `np.flatnonzero(solution)`; `if size == 0: return []`  | `SeqObj.getRoutes`: `selectedIdx x`; nothing selected: `(o, .ok [])`, no lookup, no enumeration |
+|   `[self.get_var_tuple_index(k) for k in …]`                            | `o1 := o.enumerateVariables` (flag honoured), tuples `o1.varMapping[k]?` from the CACHE; an index beyond the list: `.error .type` |
+|   `+= [t for t,v in self.fixed_values.items() if v == 1.0]`             | `++ o1.fixedOnes`: the CACHED dict, read AFTER the lookups (`Props/C14c.lean: seq_decode_stale_unsound` for the other order) |
+|   `np.lexsort`; `for vi in range(self.max_vehicles): for si in range(self.max_sequence_length): pop(0)`, `check_arc` | `seqDecodeTuples o1.inst.g o1.inst.V o1.inst.L` (`sortS`, `seqDecodeGo` / `decodeVehicle`, `VrpModel/SeqBased.lean`; current problem data); exhausted list: `.error .index` |
 | `build_objective`: flag test, `enumerate_variables()`, body, `objective_built = True` | `buildObjective`; body = `inst.objective`, shape from `getNumVariables` |
 | `build_linear_constraints`: flag test, `enumerate_variables()`, body, `lin_con_built = True` | `buildLinearConstraints`; body = `inst.linCons` |
 | `build_quadratic_constraints`: flag test, `enumerate_variables()`, body (may `assert`), `quad_con_built = True` | `buildQuadraticConstraints`; body = `inst.quadCons`, `none` ↦ `.error .assert` with the flag left unset |
@@ -116,7 +126,8 @@ breaks refinement (`seq_setMaxVehicles_nohook_not_refines`).
 * Arc object: `IndexError`/`TypeError` when `num_variables > len(var_mapping)` and `KeyError` for a cached tuple whose
   arc is gone cannot happen (the two attributes are only written together, arcs are never deleted); the zip /
   default cost `0` stands for them.  Negative indices of `get_var_tuple_index` (Python wrap-around) are not modelled.
-* Sequence object: `var_mapping_inverse` and `fixed_values` are implicit.  The builder bodies are the instance-level
+* Sequence object: `var_mapping_inverse` and the 0-entries of `fixed_values` are implicit (the 1-entries are the cache
+  field `fixedOnes`, read by `get_routes`).  The builder bodies are the instance-level
   functions `SeqInst.objective / linCons / quadCons`, which recompute the enumeration from the current instance instead
   of reading the two cached tables.  This is exact whenever the cached enumeration is fresh at the time a builder runs
   (every builder calls `enumerate_variables()` first, and the coherence invariant gives freshness when the flag is set);
@@ -170,6 +181,30 @@ def gmut (fl : Flavor) (g : Graph) : GMut → Graph × GOut
   | .cap c => ({ g with cap := some c }, .ok none)
   | .init l => ({ g with init := some l }, .ok none)
 
+/-! ## route decoding: what both `get_routes` share -/
+
+/-- `np.flatnonzero(solution)`: the positions `k < len(x)` with `x[k] ≠ 0`, ascending -/
+def selectedIdx (x : List Rat) : List Nat :=
+  ((List.range x.length).zip x).filterMap fun e => if e.2 = 0 then none else some e.1
+
+/-- arc `get_routes` once at least one index is selected, on a given variable list `vm` (the object passes its CACHED
+    `var_mapping`, the specification the enumeration of the instance): `get_var_tuple_index(k)` is `None` for an index
+    beyond the list and the array functions then raise (`.type`); otherwise sort, route construction, and the
+    assertions of the code (`.assert`) -/
+def arcRoutesFrom (g : Graph) (vm : List ATup) (sel : List Nat) : Except Err (List (List (Nat × Rat))) :=
+  if sel.any (fun k => decide (vm.length ≤ k)) then .error .type
+  else
+    let ts := sel.filterMap fun k => vm[k]?
+    if arcAssertsTuples g ts then .ok (arcDecodeTuples ts) else .error .assert
+
+/-- sequence `get_routes` once at least one index is selected, on a given variable list `vm` and a given list `fixed`
+    of the tuples fixed to 1 (the object passes its CACHES `var_mapping` / `fixed_values`, the specification the values
+    computed from the instance); `g`, `V`, `L` are always the CURRENT problem data (`check_arc`, `max_vehicles`,
+    `max_sequence_length`) -/
+def seqRoutesFrom (g : Graph) (V L : Nat) (vm fixed : List STup) (sel : List Nat) : Except Err (List (List Nat)) :=
+  if sel.any (fun k => decide (vm.length ≤ k)) then .error .type
+  else seqDecodeTuples g V L ((sel.filterMap fun k => vm[k]?) ++ fixed)
+
 /-! ## arc-based object -/
 
 structure ArcObj where
@@ -209,6 +244,16 @@ def ArcObj.getVarIndex (o : ArcObj) (u : ATup) : ArcObj × Option Nat :=
 def ArcObj.getVarTupleIndex (o : ArcObj) (k : Nat) : ArcObj × Option ATup :=
   let o1 := o.enumerateVariables
   (o1, o1.varMapping[k]?)
+
+/-- `get_routes(x)`.  Nothing selected: `np.lexsort` raises on the empty key list before any lookup, so nothing is
+    enumerated.  Otherwise the first `get_var_tuple_index` enumerates (honouring the flag) and every tuple comes from
+    the CACHED `var_mapping`; window test and node count use the current graph. -/
+def ArcObj.getRoutes (o : ArcObj) (x : List Rat) : ArcObj × Except Err (List (List (Nat × Rat))) :=
+  let sel := selectedIdx x
+  if sel.isEmpty then (o, .error .type)
+  else
+    let o1 := o.enumerateVariables
+    (o1, arcRoutesFrom o1.inst.g o1.varMapping sel)
 
 /-- `self.arcs[(i,j)].get_cost()` for a decision tuple -/
 def arcTupCost (I : ArcInst) (u : ATup) : Rat := ((I.g.arc? u.1 u.2.2.1).map (·.cost)).getD 0
@@ -419,6 +464,7 @@ inductive ArcFOp where
   | objective
   | constraints
   | qubo (feas : Bool) (rho? : Option Rat)
+  | decode (x : List Rat)    -- `get_routes(x)` (a query)
   | heur (high : Rat)
   -- public mutators
   | addTimePoints (pts : List Rat)
@@ -436,6 +482,7 @@ inductive ArcReply where
   | obj (c : List Rat) (n : Nat)
   | con (A : Coo) (shape : Nat × Nat) (b : List Rat) (n : Nat)
   | qubo (q : QuboOut)
+  | routesA (r : List (List (Nat × Rat)))   -- `get_routes`: per route the stops `(node, time)`
   | done                     -- normal return of the heuristic or of a void mutator
   | added (b : Bool)         -- return value of `add_arc`
   | raised (e : Err)
@@ -480,6 +527,9 @@ def ArcObj.stepWith (head exit : ArcObj → ArcObj) (o : ArcObj) : ArcFOp → Ar
   | .qubo feas rho? =>
     let r := o.getQubo feas rho?
     (r.1, match r.2 with | .ok q => .qubo q | .error e => .raised e)
+  | .decode x =>
+    let r := o.getRoutes x
+    (r.1, match r.2 with | .ok rs => .routesA rs | .error e => .raised e)
   | .heur high =>
     let r := o.makeFeasibleWith head exit high
     (r.1, match r.2 with | .ok _ => .done | .error e => .raised e)
@@ -584,6 +634,11 @@ def ArcInst.heurP (I : ArcInst) (high : Rat) : ArcInst × HeurRes :=
         | none => (r.1, .lookupFailed)
         | some idxs => (r.1, .ok (solVec r.1.vars.length idxs))
 
+/-- `get_routes(x)` answered from the instance alone (no cache): the enumeration is recomputed -/
+def ArcInst.getRoutes (I : ArcInst) (x : List Rat) : Except Err (List (List (Nat × Rat))) :=
+  let sel := selectedIdx x
+  if sel.isEmpty then .error .type else arcRoutesFrom I.g I.vars sel
+
 /-- abstract state: the problem data and the stored solution -/
 structure ArcAbs where
   inst : ArcInst
@@ -605,6 +660,7 @@ def ArcAbs.specStep (s : ArcAbs) : ArcFOp → ArcAbs × ArcReply
   | .constraints => (s, .con s.inst.data.A (s.inst.data.m, s.inst.data.n) s.inst.data.b s.inst.data.n)
   | .qubo feas rho? =>
     (s, match quboReply s.inst.data s.inst.suffPenalty feas rho? with | .ok q => .qubo q | .error e => .raised e)
+  | .decode x => (s, match s.inst.getRoutes x with | .ok rs => .routesA rs | .error e => .raised e)
   | .heur high =>
     let r := s.inst.heurP high
     match r.2 with
@@ -635,6 +691,7 @@ structure SeqObj where
   quadConBuilt : Bool := false
   varMapping : List STup := []
   numVariables : Nat := 0
+  fixedOnes : List STup := []            -- the tuples `t` with `fixed_values[t] == 1` (rebuilt by `enumerate_variables`)
   objectiveC : List Rat := []
   objectiveQ : Coo := []
   objQShape : Nat := 0
@@ -650,12 +707,13 @@ structure SeqObj where
     operations `setMaxVehicles` / `setMaxSeqLen`) -/
 def SeqObj.init (I : SeqInst) : SeqObj := { inst := I }
 
-/-- `enumerate_variables` -/
+/-- `enumerate_variables`: `var_mapping`, `num_variables` and the dict `fixed_values` (of which `get_routes` reads the
+    entries equal to 1: `fixedOnes`) are rebuilt together -/
 def SeqObj.enumerateVariables (o : SeqObj) : SeqObj :=
   if o.variablesEnumerated then o
   else
     let vm := o.inst.vars
-    { o with varMapping := vm, numVariables := vm.length, variablesEnumerated := true }
+    { o with varMapping := vm, numVariables := vm.length, fixedOnes := o.inst.fixedOnes, variablesEnumerated := true }
 
 /-- `get_num_variables` -/
 def SeqObj.getNumVariables (o : SeqObj) : SeqObj × Nat :=
@@ -671,6 +729,17 @@ def SeqObj.getVarIndex (o : SeqObj) (u : STup) : SeqObj × Option Nat :=
 def SeqObj.getVarTupleIndex (o : SeqObj) (k : Nat) : SeqObj × Option STup :=
   let o1 := o.enumerateVariables
   (o1, o1.varMapping[k]?)
+
+/-- `get_routes(x)`.  Nothing selected: `return []` BEFORE any lookup, so nothing is enumerated.  Otherwise the first
+    `get_var_tuple_index` enumerates (honouring the flag); the selected tuples come from the CACHED `var_mapping`, the
+    tuples fixed to 1 from the CACHED `fixed_values` (read AFTER the lookups, i.e. after the enumeration); the loops
+    use the current `max_vehicles`, `max_sequence_length` and arcs. -/
+def SeqObj.getRoutes (o : SeqObj) (x : List Rat) : SeqObj × Except Err (List (List Nat)) :=
+  let sel := selectedIdx x
+  if sel.isEmpty then (o, .ok [])
+  else
+    let o1 := o.enumerateVariables
+    (o1, seqRoutesFrom o1.inst.g o1.inst.V o1.inst.L o1.varMapping o1.fixedOnes sel)
 
 /-- `build_objective` -/
 def SeqObj.buildObjective (o : SeqObj) : SeqObj :=
@@ -879,6 +948,7 @@ inductive SeqFOp where
   | objective
   | constraints
   | qubo (feas : Bool) (rho? : Option Rat)
+  | decode (x : List Rat)    -- `get_routes(x)` (a query)
   | heur (high : Rat)
   -- public mutators
   | setMaxVehicles (v : Nat)
@@ -897,6 +967,7 @@ inductive SeqReply where
   | obj (c : List Rat) (Q : Coo) (n : Nat)
   | con (A : Coo) (shape : Nat × Nat) (b : List Rat) (R : List (Nat × Nat)) (n : Nat)
   | qubo (q : QuboOut)
+  | routesS (r : List (List Nat))           -- `get_routes`: per vehicle the node positions
   | done                     -- normal return of the heuristic or of a void mutator
   | added (b : Bool)         -- return value of `add_arc`
   | raised (e : Err)
@@ -944,6 +1015,9 @@ def SeqObj.stepWith (head exit : SeqObj → SeqObj) (o : SeqObj) : SeqFOp → Se
   | .qubo feas rho? =>
     let r := o.getQubo feas rho?
     (r.1, match r.2 with | .ok q => .qubo q | .error e => .raised e)
+  | .decode x =>
+    let r := o.getRoutes x
+    (r.1, match r.2 with | .ok rs => .routesS rs | .error e => .raised e)
   | .heur high =>
     let r := o.makeFeasibleWith head exit high
     (r.1, match r.2 with | .ok _ => .done | .error e => .raised e)
@@ -1014,6 +1088,12 @@ def SeqInst.heurP (I : SeqInst) (high : Rat) : SeqInst × HeurRes :=
       | none => (r2.1, .lookupFailed)
       | some idxs => (r2.1, .ok (solVec r2.1.vars.length idxs))
 
+/-- `get_routes(x)` answered from the instance alone (no cache): the enumeration and the tuples fixed to 1 are
+    recomputed -/
+def SeqInst.getRoutes (I : SeqInst) (x : List Rat) : Except Err (List (List Nat)) :=
+  let sel := selectedIdx x
+  if sel.isEmpty then .ok [] else seqRoutesFrom I.g I.V I.L I.vars I.fixedOnes sel
+
 structure SeqAbs where
   inst : SeqInst
   sol : Option (List Rat) := none
@@ -1042,6 +1122,7 @@ def SeqAbs.specStep (s : SeqAbs) : SeqFOp → SeqAbs × SeqReply
           match quboReply d s.inst.suffPenalty feas rho? with
           | .ok q => .qubo q
           | .error e => .raised e)
+  | .decode x => (s, match s.inst.getRoutes x with | .ok rs => .routesS rs | .error e => .raised e)
   | .heur high =>
     let r := s.inst.heurP high
     match r.2 with
